@@ -10,7 +10,8 @@
        if it is empty the commit returns Ok at once; otherwise execute_small_commit CAPTURES,
        under the file-manager lock, the current image of every tracked dirty page - including
        other handles' uncommitted modifications - and drains the tracker; the lock is released
-       (hook site 401) and only then the payload is submitted to the queue (the C37 protocol).
+       (hook site 401) and only then the payload is submitted to the queue (the C37 protocol;
+       [fx] = true is the code as it is, see Model/GroupCommit.v).
 
    A page image is the set of updates applied to the page so far, as a bit mask (update u = bit u);
    images only grow, so "newer" is "superset".  The log of frames is the concatenation of the
@@ -161,8 +162,8 @@ Definition init38 (progs : list (list txn)) : St38 :=
   MkSt38 (init (map (fun _ => []) progs)) [] [] []
          (number_from 0 (map (fun p => LThr p [] LIdle 0 []) progs)) [] false false.
 
-(* ---- scheduler view (the real execute_small_commit has no hook between take_pending and the
-   WAL write: s404 = false; site 400 is the harness's own, between the writes and COMMIT) *)
+(* ---- scheduler view (the sites of the real execute_small_commit, 404 included; site 400 is the
+   harness's own, between the writes and COMMIT) *)
 Definition finished38 (lt : lthr) : bool :=
   match lpc lt, lprog lt with LIdle, [] => true | _, _ => false end.
 Definition status38 (t : nat) (s : St38) : Z :=
@@ -173,7 +174,7 @@ Definition status38 (t : nat) (s : St38) : Z :=
       match lpc lt with
       | LIdle => 0
       | L400 => 400
-      | LCommit => if base_finished (base s) t then -2 else status false t (base s)
+      | LCommit => if base_finished (base s) t then -2 else status true t (base s)
       | _ => -2
       end
   end.
